@@ -4,7 +4,7 @@
 From Coq Require Import Extraction ExtrOcamlBasic.
 From Coq Require Import List NArith ZArith String.
 From Gen Require Import Tables.
-From Model Require Import Base Names Flt F32 Matches Detect Declared Cd.
+From Model Require Import Base Names Flt F32 Matches Detect Declared Cd Decode.
 
 Extraction Language OCaml.
 Separate Extraction
@@ -17,4 +17,5 @@ Separate Extraction
   Matches.languages Matches.suitable_encodings Matches.chaos_percents Matches.coherence_percents
   Detect.from_bytes Detect.probe Detect.make_ctx
   Declared.any_specified_encoding
-  Cd.coherence_ratio Cd.merge_coherence_ratios Cd.filter_alt Cd.most_common.
+  Cd.coherence_ratio Cd.merge_coherence_ratios Cd.filter_alt Cd.most_common
+  Decode.helper Decode.utf8_decoder Decode.sb_decoder.
